@@ -35,7 +35,7 @@ CHUNK = 500
 TOKS = ["increasing", "decreasing", "none", "peak", "valley", "positive", "negative", "convex",
         "concave", "hypercube", "simplex", "fixed", "learned_interior", "all_vertices",
         "kronecker_factored", "linear_initializer", "random_monotonic_initializer", "rtl_layer",
-        "torsion", "laplacian", "calib_hessian", "quantiles", "uniform"]
+        "torsion", "laplacian", "calib_hessian", "quantiles", "uniform", "equal_slopes"]
 
 
 # ------------------------------------------------------------------ value encoding
@@ -240,14 +240,16 @@ def _specs():
     return dict(lattice_sizes=_uniq([b["lattice_sizes"]] + [s for s in SIZES if len(s) == n]),
                 monotonicities=lattice_mono(n), unimodalities=lattice_uni(n), edgeworth_trusts=TRUSTS,
                 trapezoid_trusts=TRUSTS[:9] + TRUSTS[13:16], monotonic_dominances=DOMS, range_dominances=DOMS[:8],
-                joint_monotonicities=JOINT_MONO, joint_unimodalities=JOINT_UNI)
+                joint_monotonicities=JOINT_MONO, joint_unimodalities=JOINT_UNI,
+                output_min=[None, 0.0, 1.0, 0], output_max=[None, 0.0, 1.0, 2.0])
   lat_args = [("lattice_sizes", "v"), ("monotonicities", "v"), ("unimodalities", "v"), ("edgeworth_trusts", "v"),
               ("trapezoid_trusts", "v"), ("monotonic_dominances", "v"), ("range_dominances", "v"),
-              ("joint_monotonicities", "v"), ("joint_unimodalities", "ju")]
+              ("joint_monotonicities", "v"), ("joint_unimodalities", "ju"), ("output_min", "v"), ("output_max", "v")]
   def lat_base(sizes, mono):
     return dict(lattice_sizes=sizes, monotonicities=mono, unimodalities=None, edgeworth_trusts=None,
                 trapezoid_trusts=None, monotonic_dominances=None, range_dominances=None,
-                joint_monotonicities=None, joint_unimodalities=None)
+                joint_monotonicities=None, joint_unimodalities=None, output_min=None if len(sizes) == 1 else 0.0,
+                output_max=None if len(sizes) == 3 else 1.0)
   def lat_call(c):
     kw = dict(c)
     kw["joint_unimodalities"] = ju_py(c["joint_unimodalities"])
@@ -291,17 +293,25 @@ def _specs():
   def pwl_factors(b):
     return dict(input_keypoints=KP, output_min=OUTB, output_max=OUTB, monotonicity=MONO1, convexity=CONV,
                 is_cyclic=[False, True], impute_missing=[False, True], missing_input_value=[None, -1.0],
-                missing_output_value=[None, 0.5], input_keypoints_type=KPT)
+                missing_output_value=[None, 0.5], input_keypoints_type=KPT, clamp_min=[False, True],
+                clamp_max=[False, True], kernel_initializer=["equal_heights", "equal_slopes", "zeros"])
   pwl_args = [("input_keypoints", "v"), ("output_min", "v"), ("output_max", "v"), ("monotonicity", "v"),
               ("convexity", "v"), ("is_cyclic", "v"), ("impute_missing", "v"), ("missing_input_value", "v"),
-              ("missing_output_value", "v"), ("input_keypoints_type", "v")]
+              ("missing_output_value", "v"), ("input_keypoints_type", "v"), ("clamp_min", "v"), ("clamp_max", "v"),
+              ("kernel_initializer", "v")]
   S.append(Spec("PWLCalibration", "pwlCalibration", pwl_args,
                 [dict(input_keypoints=[0.0, 1.0, 3.0], output_min=0.0, output_max=1.0, monotonicity="increasing",
                       convexity="none", is_cyclic=False, impute_missing=False, missing_input_value=None,
-                      missing_output_value=None, input_keypoints_type="fixed"),
+                      missing_output_value=None, input_keypoints_type="fixed", clamp_min=True, clamp_max=False,
+                      kernel_initializer="equal_slopes"),
                  dict(input_keypoints=[0.0, 1.0], output_min=None, output_max=None, monotonicity="none",
                       convexity="none", is_cyclic=True, impute_missing=True, missing_input_value=-1.0,
-                      missing_output_value=None, input_keypoints_type="fixed")],
+                      missing_output_value=None, input_keypoints_type="fixed", clamp_min=False, clamp_max=False,
+                      kernel_initializer="equal_heights"),
+                 dict(input_keypoints=[0.0, 1.0, 2.0], output_min=0.0, output_max=2.0, monotonicity=0,
+                      convexity="convex", is_cyclic=False, impute_missing=False, missing_input_value=None,
+                      missing_output_value=None, input_keypoints_type="fixed", clamp_min=False, clamp_max=False,
+                      kernel_initializer="zeros")],
                 pwl_factors, lambda c: pl.PWLCalibration(**c)))
   LEN = [None, [1.0, 2.0], [1.0], []]
   def pwc_factors(b):
@@ -415,6 +425,8 @@ def _specs():
       "catstr": dict(num_buckets=3, monotonicity="increasing"),
       "catnone": dict(num_buckets=3, monotonicity="none"),
       "catint": dict(num_buckets=3, monotonicity=1),
+      "catset": dict(num_buckets=3, monotonicity={(0, 1)}),      # fix e8dafc0: must be a list or tuple
+      "cattuple": dict(num_buckets=3, monotonicity=((0, 1),)),
   }
   def pm_call(c):
     fcs = None if c["features"] is None else [configs.FeatureConfig("f%d" % i, **FEATS[n])
@@ -440,7 +452,7 @@ def _specs():
     return mc
   FLISTS = [None, ["num", "num"], ["num", "num3"], ["quant", "num"], ["badkp"], ["uni", "num3"], ["uni0", "num"],
             ["trust", "num"], ["dom", "num"], ["calibreg", "num"], ["latreg", "num"], ["cat", "num"], ["catmono", "num"],
-            ["catbad"], ["catflt"], ["catflat"], ["catstr"], ["catnone", "num"], ["catint"], []]
+            ["catbad"], ["catflt"], ["catflat"], ["catstr"], ["catnone", "num"], ["catint"], ["catset"], ["cattuple", "num"], []]
   def pm_factors(b):
     return dict(kind=[0, 1, 2, 3], features=FLISTS, parameterization=["all_vertices", "kronecker_factored"],
                 regularizers=["none", "calib", "lattice"],
@@ -470,13 +482,14 @@ _FEAT_FACTS = {
     # name: (lattice_size, unimodal, trust, dominance, feature regs: 0 none/1 calib/2 lattice,
     #        buckets (0 = numeric), keypoints: 0 numeric list/1 string/2 list with non-number,
     #        categorical monotonicity: 0 falsy-or-'none', 1 valid pairs, 2 pair with index out of range,
-    #        3 pair with non-int, 4 flat list of ints, 5 other string, 6 int)
+    #        3 pair with non-int, 4 flat list of ints, 5 other string, 6 int, 7 a set of pairs)
     "num": (2, 0, 0, 0, 0, 0, 0, 0), "num3": (3, 0, 0, 0, 0, 0, 0, 0), "quant": (2, 0, 0, 0, 0, 0, 1, 0),
     "badkp": (2, 0, 0, 0, 0, 0, 2, 0), "uni": (3, 1, 0, 0, 0, 0, 0, 0), "uni0": (2, 0, 0, 0, 0, 0, 0, 0),
     "trust": (2, 0, 1, 0, 0, 0, 0, 0), "dom": (2, 0, 0, 1, 0, 0, 0, 0), "calibreg": (2, 0, 0, 0, 1, 0, 0, 0),
     "latreg": (2, 0, 0, 0, 2, 0, 0, 0), "cat": (2, 0, 0, 0, 0, 3, 1, 0), "catmono": (2, 0, 0, 0, 0, 3, 1, 1),
     "catbad": (2, 0, 0, 0, 0, 3, 1, 2), "catflt": (2, 0, 0, 0, 0, 3, 1, 3), "catflat": (2, 0, 0, 0, 0, 3, 1, 4),
     "catstr": (2, 0, 0, 0, 0, 3, 1, 5), "catnone": (2, 0, 0, 0, 0, 3, 1, 0), "catint": (2, 0, 0, 0, 0, 3, 1, 6),
+    "catset": (2, 0, 0, 0, 0, 3, 1, 7), "cattuple": (2, 0, 0, 0, 0, 3, 1, 1),
 }
 
 
